@@ -81,15 +81,22 @@ def to_csv(val):
     # Make sure all individual values do not contain
     # leading or trailing whitespaces.
     unicode_values = list(map(str.strip, map(str, val)))
+    if len(unicode_values) == 1:
+        single = unicode_values[0]
+        # A single value is saved as plain text; commas and quotes are part
+        # of the value. Only an empty value or one that itself looks like a
+        # bracketed list has to be saved as a list of one entry.
+        if single and not (single[0] == "[" and single[-1] == "]"):
+            return single
     stream = StringIO()
     writer = csv.writer(stream, dialect="excel")
     writer.writerow(unicode_values)
-    # Strip any csv.writer added carriage return line feeds
-    # and double quotes before saving.
-    csv_string = stream.getvalue().strip().strip('"')
-    if len(unicode_values) > 1:
-        csv_string = "[" + csv_string + "]"
-    return csv_string
+    # Strip the line terminator added by the csv.writer; the quotes
+    # it added belong to the individual values and have to stay.
+    csv_string = stream.getvalue()
+    if csv_string.endswith("\r\n"):
+        csv_string = csv_string[:-2]
+    return "[" + csv_string + "]"
 
 
 def from_csv(value_string):
